@@ -1,10 +1,13 @@
-"""sysx -- systematic (preemption-bounded, depth-first) exploration of the schedules of one small scenario.
+"""sysx -- systematic (delay-bounded, depth-first) exploration of the schedules of one small scenario.
 
-Random and PCT schedules sample the interleavings of a scenario; this explorer *enumerates* them: every schedule of the
-scenario in which at most `max_preempt` context switches are preemptions (a switch away from a thread that could have
-continued; switches at blocking points and thread ends are free and are all explored).  This is the CHESS discipline:
-most concurrency defects need very few preemptions, and for a fixed bound the space is polynomial in the number of yield
-points, so small scenarios can be covered completely.
+Random and PCT schedules sample the interleavings of a scenario; this explorer *enumerates* them: every schedule that
+deviates at most `max_preempt` times from the deterministic default scheduler (default: the running thread continues; when
+it blocks or ends, the lowest-numbered enabled thread runs).  A deviation is any other choice at a decision point - a
+preemption of the running thread, or a different pick at a blocking point.  This is delay-bounded scheduling (Emmi, Qadeer,
+Rakamaric 2011), a variant of the CHESS preemption bound in which the choices at blocking points are bounded as well
+(with the fabric, writer, timer and poster threads around, leaving them free makes the space explode: the first version
+of this explorer did and could not finish a two-poster scenario).  Most concurrency defects need very few deviations, and
+for a fixed bound the space is polynomial in the number of decision points, so small scenarios can be covered completely.
 
 The scenario is the check's ordinary `run_case(ctx, n)` for a fixed case number: its parameters come from the case's
 seeded generator and are therefore identical on every run; only the schedule differs.  While `detsched.OVERRIDE` is set,
@@ -25,16 +28,15 @@ from vt import detsched as ds
 
 
 def successor(decisions, max_preempt):
-  """the lexicographically next choice list within the preemption bound, or None"""
+  """the lexicographically next choice list with at most max_preempt deviations from the default scheduler, or None"""
   costs, cost = [], 0
   for (c, nopt, me_en) in decisions:
     costs.append(cost)
-    cost += 1 if (me_en and c > 0) else 0
+    cost += 1 if c > 0 else 0
   for i in range(len(decisions) - 1, -1, -1):
     c, nopt, me_en = decisions[i]
-    for alt in range(c + 1, nopt):
-      if costs[i] + (1 if (me_en and alt > 0) else 0) <= max_preempt:
-        return [d[0] for d in decisions[:i]] + [alt]
+    if c + 1 < nopt and costs[i] + 1 <= max_preempt:
+      return [d[0] for d in decisions[:i]] + [c + 1]
   return None
 
 
@@ -59,7 +61,7 @@ def explore(ctx, n, run_once, max_preempt=2, max_runs=2000, max_seconds=20.0):
       if ctx.nviol > nv or s is None:
         break
       ctx.maxc('systematic_max_decision_points', len(s.decisions))
-      ctx.maxc('systematic_max_preemptions_in_one_schedule', sum(1 for (c, _, me_en) in s.decisions if me_en and c > 0))
+      ctx.maxc('systematic_max_deviations_in_one_schedule', sum(1 for (c, _, me_en) in s.decisions if c > 0))
       script = successor(s.decisions, max_preempt)
       if script is None:
         exhausted = True
@@ -86,6 +88,7 @@ def run_case(ctx, n, sys_cfg, scenario):
     scenario(ctx, n)
 
 
-RULE_TEXT = ('The first cases of every run are SYSTEMATIC (vt/sysx.py): for a small scenario (2 threads, short plans) EVERY schedule with at '
-             'most %s preemptions (thorough: %s) is enumerated depth-first - switches at blocking points and thread ends are free and all '
-             'explored; counters systematic_* report the schedules run and how many scenarios were enumerated completely within the bound. ')
+RULE_TEXT = ('The first cases of every run are SYSTEMATIC (vt/sysx.py): for a small scenario (2 threads, short plans) EVERY schedule that '
+             'deviates at most %s times (thorough: %s) from the deterministic default scheduler - a deviation is a preemption of the running '
+             'thread or a different pick at a blocking point - is enumerated depth-first; counters systematic_* report the schedules run and '
+             'how many scenarios were enumerated completely within the bound. ')
